@@ -1,0 +1,309 @@
+//! Verification hooks, compiled only with `--cfg vrl_verif` (never in normal builds).
+//!
+//! * [`dump_program`] prints the *compiled* expression tree of a [`Program`] in the line-protocol
+//!   text form consumed by the Lean model in `/verif/lean/VrlModel/Lang`.
+//! * [`record_caught_error`] / [`take_caught_errors`] record the text of every error caught by an
+//!   infallible assignment (`ok, err = …`) so that the model can carry it as an opaque token.
+//!
+//! Nothing here changes behaviour; it only reads.
+#![allow(
+    clippy::missing_panics_doc,
+    clippy::too_many_lines,
+    clippy::must_use_candidate
+)]
+
+use std::cell::RefCell;
+use std::fmt::Write as _;
+
+use crate::compiler::expression::{Expr, assignment, container, query, unary};
+use crate::compiler::{Program, expression::Block};
+use crate::path::{OwnedSegment, OwnedValuePath, PathPrefix};
+use crate::value::Value;
+
+thread_local! {
+    static CAUGHT_ERRORS: RefCell<Vec<String>> = const { RefCell::new(Vec::new()) };
+}
+
+/// Record the text of an error caught by an infallible assignment.
+pub fn record_caught_error(message: &str) {
+    CAUGHT_ERRORS.with(|log| log.borrow_mut().push(message.to_owned()));
+}
+
+/// Take (and clear) the texts recorded on this thread so far.
+pub fn take_caught_errors() -> Vec<String> {
+    CAUGHT_ERRORS.with(|log| std::mem::take(&mut *log.borrow_mut()))
+}
+
+fn hex(bytes: &[u8], out: &mut String) {
+    for b in bytes {
+        let _ = write!(out, "{b:02x}");
+    }
+}
+
+/// Canonical text of a value (mirrors `/verif/harness/src/wire.rs`).
+pub fn dump_value(v: &Value, out: &mut String) {
+    match v {
+        Value::Null => out.push('n'),
+        Value::Boolean(true) => out.push('t'),
+        Value::Boolean(false) => out.push('f'),
+        Value::Integer(i) => {
+            let _ = write!(out, "i:{i}");
+        }
+        Value::Float(f) => {
+            let _ = write!(out, "d:{:016x}", f.into_inner().to_bits());
+        }
+        Value::Bytes(b) => {
+            out.push_str("b:");
+            hex(b, out);
+        }
+        Value::Timestamp(t) => {
+            let ns =
+                i128::from(t.timestamp()) * 1_000_000_000 + i128::from(t.timestamp_subsec_nanos());
+            let _ = write!(out, "ts:{ns}");
+        }
+        Value::Regex(r) => {
+            out.push_str("re:");
+            hex(r.as_str().as_bytes(), out);
+        }
+        Value::Array(a) => {
+            out.push('[');
+            for x in a {
+                out.push(' ');
+                dump_value(x, out);
+            }
+            out.push_str(" ]");
+        }
+        Value::Object(m) => {
+            out.push('{');
+            for (k, x) in m {
+                out.push_str(" k:");
+                hex(k.as_str().as_bytes(), out);
+                out.push(' ');
+                dump_value(x, out);
+            }
+            out.push_str(" }");
+        }
+    }
+}
+
+fn dump_path(p: &OwnedValuePath, out: &mut String) {
+    out.push_str("(p");
+    for s in &p.segments {
+        match s {
+            OwnedSegment::Field(f) => {
+                out.push_str(" .");
+                hex(f.as_str().as_bytes(), out);
+            }
+            OwnedSegment::Index(i) => {
+                let _ = write!(out, " #{i}");
+            }
+        }
+    }
+    out.push_str(" )");
+}
+
+fn prefix(p: PathPrefix) -> &'static str {
+    match p {
+        PathPrefix::Event => "e",
+        PathPrefix::Metadata => "m",
+    }
+}
+
+fn dump_target(t: &assignment::Target, out: &mut String) {
+    match t {
+        assignment::Target::Noop => out.push_str("(tnoop )"),
+        assignment::Target::Internal(ident, path) => {
+            let _ = write!(out, "(tint v:{} ", ident.as_ref());
+            dump_path(path, out);
+            out.push_str(" )");
+        }
+        assignment::Target::External(tp) => {
+            let _ = write!(out, "(text {} ", prefix(tp.prefix));
+            dump_path(&tp.path, out);
+            out.push_str(" )");
+        }
+    }
+}
+
+fn dump_exprs(exprs: &[Expr], out: &mut String) {
+    for e in exprs {
+        out.push(' ');
+        dump_expr(e, out);
+    }
+}
+
+fn dump_block(tag: &str, block: &Block, out: &mut String) {
+    let _ = write!(out, "({tag}");
+    dump_exprs(block.exprs(), out);
+    out.push_str(" )");
+}
+
+/// Print one compiled expression.
+pub fn dump_expr(e: &Expr, out: &mut String) {
+    match e {
+        Expr::Literal(l) => {
+            out.push_str("(lit ");
+            dump_value(&l.to_value(), out);
+            out.push_str(" )");
+        }
+        Expr::Noop(_) => out.push_str("(noop )"),
+        Expr::Container(c) => match &c.variant {
+            container::Variant::Group(g) => {
+                out.push_str("(grp ");
+                dump_expr(g.verif_inner(), out);
+                out.push_str(" )");
+            }
+            container::Variant::Block(b) => dump_block("blk", b, out),
+            container::Variant::Array(a) => {
+                out.push_str("(arr");
+                dump_exprs(a.verif_inner(), out);
+                out.push_str(" )");
+            }
+            container::Variant::Object(o) => {
+                out.push_str("(obj");
+                for (k, v) in o.verif_inner() {
+                    out.push_str(" (kv k:");
+                    hex(k.as_str().as_bytes(), out);
+                    out.push(' ');
+                    dump_expr(v, out);
+                    out.push_str(" )");
+                }
+                out.push_str(" )");
+            }
+        },
+        Expr::IfStatement(i) => {
+            out.push_str("(if ");
+            dump_block("pred", i.predicate.verif_inner(), out);
+            out.push(' ');
+            dump_block("then", &i.if_block, out);
+            out.push(' ');
+            match &i.else_block {
+                Some(b) => dump_block("else", b, out),
+                None => out.push_str("(noelse )"),
+            }
+            out.push_str(" )");
+        }
+        Expr::Op(op) => {
+            let _ = write!(out, "(op {:?} ", op.opcode);
+            dump_expr(&op.lhs, out);
+            out.push(' ');
+            dump_expr(&op.rhs, out);
+            out.push_str(" )");
+        }
+        Expr::Assignment(a) => match a.verif_variant() {
+            assignment::Variant::Single { target, expr } => {
+                out.push_str("(asg ");
+                dump_target(target, out);
+                out.push(' ');
+                dump_expr(expr, out);
+                out.push_str(" )");
+            }
+            assignment::Variant::Infallible {
+                ok,
+                err,
+                expr,
+                default,
+            } => {
+                out.push_str("(iasg ");
+                dump_target(ok, out);
+                out.push(' ');
+                dump_target(err, out);
+                out.push(' ');
+                dump_expr(expr, out);
+                out.push(' ');
+                dump_value(default, out);
+                out.push_str(" )");
+            }
+        },
+        Expr::Query(q) => match q.target() {
+            query::Target::External(p) => {
+                let _ = write!(out, "(qext {} ", prefix(*p));
+                dump_path(q.path(), out);
+                out.push_str(" )");
+            }
+            query::Target::Internal(v) => {
+                let _ = write!(out, "(qvar v:{} ", v.ident().as_ref());
+                dump_path(q.path(), out);
+                out.push_str(" )");
+            }
+            query::Target::FunctionCall(call) => {
+                out.push_str("(qexpr ");
+                dump_call(call, out);
+                out.push(' ');
+                dump_path(q.path(), out);
+                out.push_str(" )");
+            }
+            query::Target::Container(c) => {
+                out.push_str("(qexpr ");
+                dump_expr(&Expr::Container(c.clone()), out);
+                out.push(' ');
+                dump_path(q.path(), out);
+                out.push_str(" )");
+            }
+        },
+        Expr::FunctionCall(call) => dump_call(call, out),
+        Expr::Variable(v) => {
+            let _ = write!(out, "(var v:{} )", v.ident().as_ref());
+        }
+        Expr::Unary(u) => match u.verif_variant() {
+            unary::Variant::Not(n) => {
+                out.push_str("(not ");
+                dump_expr(n.verif_inner(), out);
+                out.push_str(" )");
+            }
+        },
+        Expr::Abort(a) => match a.verif_message() {
+            Some(m) => {
+                out.push_str("(abort ");
+                dump_expr(m, out);
+                out.push_str(" )");
+            }
+            None => out.push_str("(abort0 )"),
+        },
+        Expr::Return(r) => {
+            out.push_str("(ret ");
+            dump_expr(r.verif_expr(), out);
+            out.push_str(" )");
+        }
+    }
+}
+
+fn dump_call(call: &crate::compiler::expression::FunctionCall, out: &mut String) {
+    let (ident, abort_on_error, start, end) = call.verif_head();
+    let _ = write!(
+        out,
+        "(call {ident} {} {start} {end} (args",
+        u8::from(abort_on_error)
+    );
+    for (kw, e) in call.verif_arguments() {
+        match kw {
+            Some(k) => {
+                let _ = write!(out, " (a v:{k} ");
+            }
+            None => out.push_str(" (a - "),
+        }
+        dump_expr(e, out);
+        out.push_str(" )");
+    }
+    out.push_str(" ) ");
+    match call.verif_closure() {
+        Some(c) => {
+            out.push_str("(closure (vars");
+            for v in &c.variables {
+                let _ = write!(out, " v:{}", v.as_ref());
+            }
+            out.push_str(" ) ");
+            dump_block("body", &c.block, out);
+            out.push_str(" )");
+        }
+        None => out.push_str("(noclosure )"),
+    }
+    out.push_str(" )");
+}
+
+/// Print the compiled root block of a program.
+pub fn dump_program(program: &Program) -> String {
+    let mut out = String::new();
+    dump_block("prog", program.verif_expressions(), &mut out);
+    out
+}
